@@ -259,6 +259,25 @@ func (fc *followerController) CommitOffset() int64 {
 	return fc.commitOffset.Load()
 }
 
+// DurableCommitOffset is used by the WAL trimmer: the database is not durable at every commit (it has
+// no write-ahead log of its own), so the entries it has applied may only leave the log once it was flushed.
+func (fc *followerController) DurableCommitOffset() (int64, error) {
+	if !fc.TryLock() {
+		// The controller is installing a snapshot or closing (which waits for the trimmer): nothing
+		// can be trimmed in this round
+		return wal.InvalidOffset, nil
+	}
+	defer fc.Unlock()
+
+	if fc.isClosed() || fc.db == nil {
+		return wal.InvalidOffset, nil
+	}
+	if err := fc.db.Flush(); err != nil {
+		return wal.InvalidOffset, err
+	}
+	return fc.db.ReadCommitOffset()
+}
+
 func (fc *followerController) NewTerm(req *proto.NewTermRequest) (*proto.NewTermResponse, error) {
 	fc.Lock()
 	defer fc.Unlock()
